@@ -158,7 +158,7 @@ def histories(draw, max_steps=8):
 
 class History(Facet):
     name = "history"
-    examples = {"quick": 8000, "thorough": 300000}
+    examples = {"quick": 8000, "thorough": 200000}
     shards = {"quick": 16, "thorough": 16}
 
     def strategy(self, tier):
